@@ -899,6 +899,12 @@ func iterPartition(c *core.Ctx, s *Stage, g *Goroutine, h *ssa.BasicBlock) {
 // foldShape checks accumulator discipline of a folding goroutine; shared with fork (C10).
 // Returns the accumulator cell.
 func foldShape(c *core.Ctx, rule, name string, g *Goroutine, h *ssa.BasicBlock, resultCh *ir.Term, closeAfterSend bool) bool {
+	return foldShapeX(c, rule, name, g, h, resultCh, closeAfterSend, false)
+}
+
+// foldShapeX: with commutative set, Combine(x, acc) is as good as Combine(acc, x) - fork.Fold is specified for
+// commutative monoids only (C10), the sequential fold is not.
+func foldShapeX(c *core.Ctx, rule, name string, g *Goroutine, h *ssa.BasicBlock, resultCh *ir.Term, closeAfterSend bool, commutative bool) bool {
 	ok := true
 	// the accumulator cell: the cell whose value is sent on resultCh on exit
 	var acc *ir.Term
@@ -1004,6 +1010,9 @@ func foldShape(c *core.Ctx, rule, name string, g *Goroutine, h *ssa.BasicBlock, 
 		if f.recv != nil {
 			m, _, args, isC := callParts(endV)
 			good := isC && m == "Combine" && len(args) == 3 && args[0].Op == "param" && ir.Same(args[1], startV) && ir.Same(args[2], f.elem) && nComb == 1
+			if !good && commutative {
+				good = isC && m == "Combine" && len(args) == 3 && args[0].Op == "param" && ir.Same(args[2], startV) && ir.Same(args[1], f.elem) && nComb == 1
+			}
 			if !good {
 				ok = false
 				c.Fail(rule, name, f.recv.Pos(), "per element the accumulator must become Combine(acc, x) exactly once with the accumulator first; found acc' = %s (%d Combine calls)", short(endV), nComb)
